@@ -2,7 +2,7 @@
    Property theorems only; each is closed by [exact] of a lemma of CategoryProofs.v, instantiated at
    [src_cfg], the configuration tools/src2coq.py reads from categoryfilter.cpp / logmessage.h on every
    run (separator replacement, split character, suffix alternatives with their QtMsgType, value
-   alternatives, wildcard, anchoring mode, default verdict, loop shape).  [category_filter src_cfg],
+   alternatives, wildcard, kind of matcher, default verdict, loop shape).  [category_filter src_cfg],
    [parse_rules src_cfg], [spec_verdict] and [prop_c15_b] are the functions that are extracted and
    run against the real CategoryFilter. *)
 From Coq Require Import List NArith Bool.
@@ -18,7 +18,7 @@ Print Assumptions C15_source_configuration_good.
 (* ordered evaluation: the LAST rule that matches (category, type) decides; none => the message passes *)
 Theorem C15_last_match_wins : forall rs c t,
   filter_rules src_cfg rs c t =
-  match find (fun r => rule_matches (line_anchors src_cfg) (star src_cfg) r c t) (rev rs) with
+  match find (fun r => rule_matches (matcher src_cfg) (star src_cfg) r c t) (rev rs) with
   | Some r => enabled r
   | None => true
   end.
@@ -27,7 +27,7 @@ Print Assumptions C15_last_match_wins.
 
 (* a rule matches iff its pattern globs the category and it is untyped or of the message's type *)
 Theorem C15_rule_matches_meaning : forall r c t,
-  rule_matches (line_anchors src_cfg) (star src_cfg) r c t = true <->
+  rule_matches (matcher src_cfg) (star src_cfg) r c t = true <->
   Glob 42 (pat r) c /\ (rtype r = None \/ rtype r = Some t).
 Proof. exact (good_rule_matches_meaning src_cfg C15_source_configuration_good). Qed.
 Print Assumptions C15_rule_matches_meaning.
@@ -44,6 +44,23 @@ Print Assumptions C15_verdict_is_specified.
 Theorem C15_glob_match_correct : forall p s, glob 42 p s = true <-> Glob 42 p s.
 Proof. exact (glob_iff 42). Qed.
 Print Assumptions C15_glob_match_correct.
+
+(* the matcher the code runs — wildcardMatch, the iterative two-pointer algorithm transcribed as
+   [glob_iter] (fuel-bounded) — terminates within its fuel for every pattern and text ... *)
+Theorem C15_iterative_matcher_total : forall p s, exists b, glob_iter 42 p s = Some b.
+Proof. exact (glob_iter_total 42). Qed.
+Print Assumptions C15_iterative_matcher_total.
+
+(* ... and answers true exactly when the pattern globs the text (greedy leftmost retry after the most
+   recent star loses no match) *)
+Theorem C15_iterative_matcher_correct : forall p s b, glob_iter 42 p s = Some b -> (b = true <-> Glob 42 p s).
+Proof. exact (glob_iter_sound_complete 42). Qed.
+Print Assumptions C15_iterative_matcher_correct.
+
+(* ... hence it computes the same function as the recursive matcher *)
+Theorem C15_iterative_matcher_is_glob : forall p s, glob_iter 42 p s = Some (glob 42 p s).
+Proof. exact (glob_iter_agrees 42). Qed.
+Print Assumptions C15_iterative_matcher_is_glob.
 
 (* ... equivalently: s decomposes along the stars of p — the literal pieces of p between the stars
    occur in s in that order, the first as a prefix, the last as a suffix, anything in between *)
@@ -126,13 +143,13 @@ Print Assumptions C15_fatal_decided_by_untyped_rules.
 (* a later rule overrides the earlier ones exactly where it matches *)
 Theorem C15_later_rule_overrides : forall rs r c t,
   filter_rules src_cfg (rs ++ [r]) c t =
-  if rule_matches (line_anchors src_cfg) (star src_cfg) r c t then enabled r else filter_rules src_cfg rs c t.
+  if rule_matches (matcher src_cfg) (star src_cfg) r c t then enabled r else filter_rules src_cfg rs c t.
 Proof. exact (good_later_rule_overrides src_cfg C15_source_configuration_good). Qed.
 Print Assumptions C15_later_rule_overrides.
 
 (* a message no rule matches passes *)
 Theorem C15_no_rule_matches_passes : forall rs c t,
-  (forall r, In r rs -> rule_matches (line_anchors src_cfg) (star src_cfg) r c t = false) ->
+  (forall r, In r rs -> rule_matches (matcher src_cfg) (star src_cfg) r c t = false) ->
   filter_rules src_cfg rs c t = true.
 Proof. exact (good_no_match_passes src_cfg C15_source_configuration_good). Qed.
 Print Assumptions C15_no_rule_matches_passes.
